@@ -4,7 +4,7 @@ T3: no enumerated exception source other than LexerError/ParseError reaches the
 exit of <parser>.parse; T4: the parser loops make progress on every cyclic path.
 """
 from ..core import Finding
-from .. import parserules
+from .. import parserules, decrules
 from . import common
 
 
@@ -55,3 +55,4 @@ def run(repo, res, tier):
         res.oblige("T4", w, ok=w not in t4keys, detail="every cyclic path consumes a token")
     res.floor("token-pulling while loops", len(parserules.event_sites(an, "while")), 2)
     t8 = parserules.add_rule(res, an, "T8")
+    decrules.rule_gd1(repo, res)
